@@ -19,7 +19,7 @@ RULE = (
     "InvalidDefinitionError, also when the caller re-uses one lookup list object that earlier reads were given. Non-trivial: >=3 definitions and >=2 edges, or an error shape; distinct by graph + read order."
 )
 ASSUMPTIONS = ["R-resolve (pv/gen/ns.py: resolve) restates the resolution rule of the property"]
-MIN_MONITORS = {"reference-resolved": 6000, "nested-equals-own-read": 6000, "read-files-order": 3000, "error-shape": 1200, "lookup-list-reused": 500}
+MIN_MONITORS = {"reference-resolved": 6000, "nested-equals-own-read": 6000, "read-files-order": 3000, "error-shape": 1200, "lookup-list-reused": 500, "chain-order": 100}
 THOROUGH_MIN_SCALE = 10
 
 
@@ -328,11 +328,61 @@ def run_error(ctx, pydsdl, ns0, seed, workdir):
     return shape
 
 
+CHAIN_FORMS = ["{n} f", "{n}[<=2] f", "uint8 C = {n}.K", "@assert {n}.K == 1", "uint8[<=({n}.K + 1) * 2] f", "@assert ((({n}.K == 1)))", "@assert (((((({n}.K == 1))))))"]
+
+
+def chain_depth_experiment(ctx, pydsdl, rng, workdir):
+    """
+    A valid acyclic chain T0 -> T1 -> ... -> Tn (each definition refers to the next one in a field type, an array, a constant or an
+    @assert, possibly inside parentheses) read with the head sorting first (every definition is first reached through its referrer,
+    nested n deep) and with the leaf sorting first (every reference finds a definition that was read before): the outcome and the
+    types must be the same - "no matter in which order, through which referrer or how many times it is reached".
+    """
+    n = rng.choice([6, 8, 10, 12, 16, 20, 25, 30, 40, 60])
+    form = rng.choice(CHAIN_FORMS)
+    base = workdir / "c09chain"
+    outcomes = {}
+    case = {"chain_depth": n, "form": form}
+    try:
+        for order in ("head-first", "leaf-first"):
+            shutil.rmtree(base, ignore_errors=True)
+            (base / "ns").mkdir(parents=True)
+            name = (lambda i: "T%04d" % i) if order == "head-first" else (lambda i: "T%04d" % (9000 - i))
+            for i in range(n + 1):
+                body = ["uint8 K = 1"] + ([form.replace("{n}", "ns.%s.1.0" % name(i + 1))] if i < n else ["uint8 x"]) + ["@sealed"]
+                (base / "ns" / ("%s.1.0.dsdl" % name(i))).write_text("\n".join(body) + "\n")
+            ctx.mon("chain-order")
+            import sys
+            limit = sys.getrecursionlimit()
+            sys.setrecursionlimit(1000)   # the interpreter's default (the shard processes of the harness run with a larger one)
+            try:
+                res = pydsdl.read_namespace(base / "ns", [])
+                outcomes[order] = ("ok", sorted((int(t.short_name[1:]) if order == "head-first" else 9000 - int(t.short_name[1:]), [str(a).replace(t.full_namespace, "") for a in t.attributes][-1][:6],
+                                                 t.extent) for t in res))
+            except pydsdl.InvalidDefinitionError as ex:
+                outcomes[order] = ("rejected", type(ex).__name__, "nested too deeply" in str(ex))
+            finally:
+                sys.setrecursionlimit(limit)
+        ctx.case(("chain-depth", n, form), True, classes=["chain-order-pair", "chain-depth-%s" % ("<=12" if n <= 12 else "<=30" if n <= 30 else ">30")])
+        a, b = outcomes["head-first"], outcomes["leaf-first"]
+        if a != b:
+            stack = any(o[0] == "rejected" and o[1] == "DSDLSyntaxError" and o[2] for o in (a, b))
+            ctx.violation("C09/order-dependent/dependency-depth" if stack else "C09/order-dependent",
+                          "a valid chain of %d definitions linked by `%s`: head first -> %s, leaf first -> %s" % (n + 1, form, str(a)[:120], str(b)[:120]), case)
+        elif a[0] != "ok":
+            stack = a[1] == "DSDLSyntaxError" and a[2]
+            ctx.violation("C09/valid-rejected/dependency-depth" if stack else "C09/valid-rejected", "a valid chain of %d definitions linked by `%s` is rejected in either order: %s" % (n + 1, form, a), case)
+    finally:
+        shutil.rmtree(base, ignore_errors=True)
+
+
 def run_shard(ctx):
     pydsdl = import_pydsdl()
     for i in range(ctx.share(ctx.params["n"])):
         if ctx.out_of_time():
             break
+        if i % 12 == 0:
+            chain_depth_experiment(ctx, pydsdl, ctx.rng, ctx.tmp)
         seed = ctx.rng.randrange(1 << 40)
         ns = GN.gen_namespace(random.Random(seed))
         edges = sum(len(d["refs"]) for d in ns["defs"])
@@ -358,7 +408,14 @@ def replay(ctx, case):
         for r in d["refs"]:
             if r.get("array"):
                 r["array"] = tuple(r["array"])
-    if "ns0" in case:
+    if "chain_depth" in case:
+        class _R:
+            def __init__(self, n, form):
+                self.v = [n, form]
+            def choice(self, pool):
+                return self.v.pop(0)
+        chain_depth_experiment(ctx, pydsdl, _R(case["chain_depth"], case["form"]), ctx.tmp)
+    elif "ns0" in case:
         ns0 = case["ns0"]
         for d in ns0["defs"]:
             d["ver"] = tuple(d["ver"])
